@@ -34,24 +34,37 @@ func EnumHistories() []History {
 		{Op: OpUnsubscribe, Sub: 1},
 		{Op: OpEvent, Period: 0, N: 92, K: 0},
 	}
+	// for the heartbeat windows: s1 wants heartbeats and has had no data yet (the event is filtered out)
+	prefixHB := func(hbFail bool) []Step {
+		return []Step{
+			{Op: OpSubscribe, Sub: 0, Conn: 1, Key: 0, HB: true},
+			{Op: OpSubscribe, Sub: 1, Conn: 2, Key: 0, Filter: FIn0, Shape: 1, HB: true, HBFail: hbFail},
+			{Op: OpSubscribe, Sub: 2, Conn: 1, Key: 1},
+			{Op: OpEvent, Period: 0, N: 1, K: 1},
+		}
+	}
 	type parent struct {
 		st     Step
-		period int // period created by the parent (subscribe parents), else -1
+		period int    // period created by the parent (subscribe parents), else -1
+		prefix []Step // replaces the standard prefix
 	}
 	parents := []parent{
-		{Step{Op: OpEvent, Period: 0, N: 2, K: 0, Split: &Split{Point: PtUpdate, Target: 0}}, -1},
-		{Step{Op: OpEvent, Period: 0, N: 2, K: 0, Split: &Split{Point: PtUpdate, Target: 1}}, -1},
-		{Step{Op: OpUpdateSub, Period: 0, Sub: 1, N: 2, K: 0, Split: &Split{Point: PtUpdate, Target: 1}}, -1},
-		{Step{Op: OpComplete, Period: 0, Split: &Split{Point: PtComplete, Target: 0}}, -1},
-		{Step{Op: OpError, Period: 0, Split: &Split{Point: PtError, Target: 1}}, -1},
-		{Step{Op: OpEvent, Period: 0, N: 2, K: 0, Split: &Split{Point: PtWFlush, Target: 0}}, -1},
-		{Step{Op: OpEvent, Period: 0, N: 2, K: 0, Split: &Split{Point: PtWFlush, Target: 1}}, -1},
-		{Step{Op: OpComplete, Period: 0, Split: &Split{Point: PtWComplete, Target: 1}}, -1},
-		{Step{Op: OpError, Period: 0, Split: &Split{Point: PtWError, Target: 0}}, -1},
-		{Step{Op: OpSubscribe, Sub: 3, Conn: 3, Key: 2, Split: &Split{Point: PtStart}}, 2},
-		{Step{Op: OpSubscribe, Sub: 3, Conn: 3, Key: 2, Split: &Split{Point: PtInit}}, 2},
-		{Step{Op: OpSubscribe, Sub: 3, Conn: 3, Key: 2, Hook: HookEmit, StartMode: StartBlock, Split: &Split{Point: PtStart}}, 2},
-		{Step{Op: OpSubscribe, Sub: 3, Conn: 3, Key: 2, Sync: true, HB: true, Split: &Split{Point: PtInit}}, 2},
+		{Step{Op: OpEvent, Period: 0, N: 2, K: 0, Split: &Split{Point: PtUpdate, Target: 0}}, -1, nil},
+		{Step{Op: OpEvent, Period: 0, N: 2, K: 0, Split: &Split{Point: PtUpdate, Target: 1}}, -1, nil},
+		{Step{Op: OpUpdateSub, Period: 0, Sub: 1, N: 2, K: 0, Split: &Split{Point: PtUpdate, Target: 1}}, -1, nil},
+		{Step{Op: OpComplete, Period: 0, Split: &Split{Point: PtComplete, Target: 0}}, -1, nil},
+		{Step{Op: OpError, Period: 0, Split: &Split{Point: PtError, Target: 1}}, -1, nil},
+		{Step{Op: OpEvent, Period: 0, N: 2, K: 0, Split: &Split{Point: PtWFlush, Target: 0}}, -1, nil},
+		{Step{Op: OpEvent, Period: 0, N: 2, K: 0, Split: &Split{Point: PtWFlush, Target: 1}}, -1, nil},
+		{Step{Op: OpComplete, Period: 0, Split: &Split{Point: PtWComplete, Target: 1}}, -1, nil},
+		{Step{Op: OpError, Period: 0, Split: &Split{Point: PtWError, Target: 0}}, -1, nil},
+		{Step{Op: OpHeartbeat, Period: 0, Split: &Split{Point: PtHeartbeat, Target: 1}}, -1, prefixHB(false)},
+		{Step{Op: OpHeartbeat, Period: 0, Split: &Split{Point: PtHeartbeat, Target: 1}}, -1, prefixHB(true)},
+		{Step{Op: OpHeartbeat, Period: 0, Split: &Split{Point: PtWHeartbeat, Target: 1}}, -1, prefixHB(false)},
+		{Step{Op: OpSubscribe, Sub: 3, Conn: 3, Key: 2, Split: &Split{Point: PtStart}}, 2, nil},
+		{Step{Op: OpSubscribe, Sub: 3, Conn: 3, Key: 2, Split: &Split{Point: PtInit}}, 2, nil},
+		{Step{Op: OpSubscribe, Sub: 3, Conn: 3, Key: 2, Hook: HookEmit, StartMode: StartBlock, Split: &Split{Point: PtStart}}, 2, nil},
+		{Step{Op: OpSubscribe, Sub: 3, Conn: 3, Key: 2, Sync: true, HB: true, Split: &Split{Point: PtInit}}, 2, nil},
 	}
 	var out []History
 	for _, p := range parents {
@@ -110,7 +123,11 @@ func EnumHistories() []History {
 				sp.Nested = append(sp.Nested, n)
 			}
 			h := History{}
-			h.Steps = append(h.Steps, prefix...)
+			if p.prefix != nil {
+				h.Steps = append(h.Steps, p.prefix...)
+			} else {
+				h.Steps = append(h.Steps, prefix...)
+			}
 			h.Steps = append(h.Steps, st)
 			h.Steps = append(h.Steps, suffix...)
 			out = append(out, h)
